@@ -567,3 +567,41 @@ def gen_signals(rng, names):
         st = Fraction(0) if rng.random() < 0.7 else Fraction(rng.randint(1, 14), 4)
         return dict((k, gen_signal(rng, start=st)) for k in names)
     return dict((k, gen_signal(rng)) for k in names)
+
+
+# ---------------------------------------------------------------------------------------
+# modular specifications (C09, C12)
+
+def decompose(rng, f, k, names=('sa', 'sb', 'sc', 'sd')):
+    """Split ``f`` into a top formula and up to k named sub-specifications (definition order; a
+    definition may reference earlier names; every occurrence of a chosen sub-formula is replaced)."""
+    top, defs = f, []
+    for i in range(k):
+        cands = [g for g in walk(top) if not is_leaf(g) and g is not top and g != top]
+        if not cands:
+            break
+        g = rng.choice(cands)
+        nm = names[i]
+        top = map_formula(top, lambda h, g=g, nm=nm: V(nm) if h == g else h)
+        defs.append((nm, g))
+    return top, defs
+
+
+def inline(top, defs):
+    f = top
+    for nm, g in reversed(defs):
+        f = subst_var(f, nm, g)
+    return f
+
+
+def lift_constants(rng, f, p=0.5, names=('k1', 'k2')):
+    """Replace up to two distinct literal constants by declared constants. Returns (formula, [(name, value)])."""
+    consts = []
+    for g in walk(f):
+        if g[0] == 'const' and g[2] not in [c for _, c in consts]:
+            consts.append((None, g[2]))
+    rng.shuffle(consts)
+    chosen = [(names[i], v) for i, (_, v) in enumerate(consts[:2]) if rng.random() < p]
+    for nm, val in chosen:
+        f = map_formula(f, lambda h, nm=nm, val=val: V(nm) if (h[0] == 'const' and h[2] == val) else h)
+    return f, chosen
